@@ -495,18 +495,7 @@ def run_impl(cases):
 
 # ------------------------------------------------------------------ judges
 
-FINDING_OF_REGION = [('callableWithoutName', 'callableObjectWithoutName'),
-                     ('abcConvert', 'callableAbcSpelling'),
-                     ('asyncVsTop', 'callableAsyncVsAny'),
-                     ('declaredUnionVsClass', 'callableDeclaredUnionVsClass'),
-                     ('unionNotExactMember', 'callableUnionNotExactMember'),
-                     ('genericVsRawClass', 'callableGenericVsRawClass')]
-
-
-def _abc_convert_fails(case):
-    e = case['c']['exp']
-    bare = env_json()['bare']
-    return (e['ps'] is not None and len(e['ps']) != 1) or any(t[0] == 'cls' and t[1] in bare for t in (e['ps'] or []) + [e['ret']])
+FINDING_OF_REGION = [('asyncVsTop', 'callableAsyncVsAny')]     # the one region left after the repairs F1-F5 (Spec/CallableRegions.lean)
 
 
 def _common(case, impl, model):
@@ -558,7 +547,6 @@ def judge_complete(case, impl, model):
         for (kind, text), o in zip(case['x'].get('alts', []), impl['alts']):
             if verdict_class(o) != vc:
                 pfail = f"verdict depends on the spelling: {impl['out']} for {case['x']['exp']}, {o} for {text} (value {case['x']['val_text']})"
-                if _abc_convert_fails(case) and 'abcConvert' not in regions: regions.append('abcConvert')
                 break
     if pfail and j['corr']:
         for reg, fid in FINDING_OF_REGION:
